@@ -137,6 +137,22 @@ var entryPoints = []entryPoint{
 		}
 		return len(o1), err1 == nil, nil
 	}},
+	{"BytesSkipDecoder.SkipN then Next on one decoder", true, nil, func(b []byte, t int8) (int, bool, error) {
+		d := thrift.NewBytesSkipDecoder(b)
+		defer d.Release()
+		k := len(b) / 3
+		if s, err := d.SkipN(k); err == nil && (!inside(s, b) || len(s) != k) {
+			return -2, true, nil
+		}
+		o, err := d.Next(t)
+		if err == nil && !inside(o, b) {
+			return -2, true, nil
+		}
+		if s, err := d.SkipN(1); err == nil && !inside(s, b) {
+			return -2, true, nil
+		}
+		return len(o), err == nil, nil
+	}},
 	{"ApplicationException.FastRead", false, nil, func(b []byte, t int8) (int, bool, error) {
 		return first2(thrift.NewApplicationException(0, "").FastRead(b))
 	}},
@@ -396,10 +412,19 @@ func genEPCase(t *rapid.T) EPCase {
 	return c
 }
 
+var c03Flip int
+
 func TestC03_Random(t *testing.T) {
 	rec := evid.New("C03", "c03_random", "rapid: valid encodings (value trees, nesting chains, field sequences, Base-like structs, message envelopes, TTHeader-like frames) hit by one malformation operator (every cut point, structural byte -> boundary byte, size -> hostile constant, splice, bit flip, append) or uniform bytes, with any requested type byte -128..127; each case runs through 29 entry points x 3 placements (guard page after, guard page before, heap cap==len) behind recover with faults turned into panics; non-trivial = non-empty input on which the reference parsed >= 1 structural field or which is a strict mutation")
 	defer rec.Flush()
-	runRapid(t, rec, "c03_entry_points", evid.Pick(40000, 200000), genEPCase, func(c EPCase, cv *cov) *evid.Violation { return checkEntryPointsRec(c, cv, rec) })
+	rec.Assume("the span-cache switch is flipped between (sequential) cases: every third case runs with it enabled")
+	defer thrift.SetSpanCache(false)
+	runRapid(t, rec, "c03_entry_points", evid.Pick(40000, 200000), genEPCase, func(c EPCase, cv *cov) *evid.Violation {
+		c03Flip++
+		thrift.SetSpanCache(c03Flip%3 == 0)
+		cv.labelIf(c03Flip%3 == 0, "span_cache_enabled")
+		return checkEntryPointsRec(c, cv, rec)
+	})
 }
 
 func TestC03_Exhaustive(t *testing.T) {
